@@ -182,3 +182,42 @@ class NamedTupleGetFields(Contract):
 
     def frame_exc(self, cx):
         return []
+
+
+def _ntfields_apply(self, eng, st, this, args, n):
+    """Call-site summary of NamedTupleGetFields (its proved contract): TypeError unless the class is a namedtuple class,
+    otherwise its `_fields` (an exact tuple)."""
+    line = n.get('line')
+    o = args[0]
+    r = o.ref if isinstance(o, PyObj) else o
+    eng.may_call_python(st, 'class predicate / getattr (NamedTupleGetFields)', line)
+    for cls in ('pybind11::type_error', 'pybind11::error_already_set'):
+        s_exc = st.clone()
+        eng.throw(s_exc, cls, line, 'from NamedTupleGetFields')
+    C = z3.If(T.nt_is_type(r), r, M.py_type(r))
+    f = T.nt_attr(C, T.nt_name('_fields'))
+    st.pc.append(z3.And(T.NT(C), f != NULL, M.py_is_tuple(f)))
+    return [(st, PyObj(f, stable=True))]
+
+
+NamedTupleGetFields.apply = _ntfields_apply
+
+
+@contract
+class StructSequenceGetFieldsSummary(Contract):
+    """External summary (the function is not under contract): returns a new tuple of field names or raises."""
+    name = 'StructSequenceGetFields'
+    this_is_spec = False
+    external_summary = True
+
+    def apply(self, eng, st, this, args, n):
+        line = n.get('line')
+        eng.may_call_python(st, 'class predicate / getattr (StructSequenceGetFields)', line)
+        for cls in ('pybind11::type_error', 'pybind11::error_already_set'):
+            s_exc = st.clone()
+            eng.throw(s_exc, cls, line, 'from StructSequenceGetFields')
+        o = args[0]
+        r = o.ref if isinstance(o, PyObj) else o
+        f = z3.Function('structseq_fields_of', Ref, Ref)(z3.If(T.nt_is_type(r), r, M.py_type(r)))
+        st.pc.append(z3.And(f != NULL, M.py_is_tuple(f)))
+        return [(st, PyObj(f, stable=True))]
